@@ -301,6 +301,24 @@ check('C09', 'model_checking',
       'enumeration, both evaluated by TLC on recorded decodes',
       'tlc-data')
 
+check('C15', 'model_checking',
+      'Analysis.tla defines the pooled statistics of a multiset of trials; '
+      'Analysis_Model.tla enumerates every partition of a 7-trial pool (two '
+      'keys, k = 2 and k = 1, arbitrary effective-error/codespace patterns) '
+      'into records, containers of every kind, repeated runs and orders '
+      '(683k layouts) and checks pooling is layout independent; a '
+      'pseudo-random sample of layouts is materialised as real files (json, '
+      'json.gz, zip members, merge-results output), read by Analysis(paths), '
+      'and every reported row is judged by TLC (C15_Data.tla): counts '
+      'exactly, estimators/standard errors/word and single-qubit rates by '
+      'cross-multiplication.',
+      'DESIGN.md 4/C15',
+      'Trusted: TLC; float comparisons at 2e-6 after the stated algebraic '
+      'rearrangements.',
+      'TLA+ pooling model checked over all layouts + spec->code replay of '
+      'sampled layouts through the real Analysis class, judged by TLC',
+      'tlc-data')
+
 
 def build():
     checks = []
